@@ -61,6 +61,8 @@ type Exec struct {
 	havocStore bool
 	wfDone   map[string]bool
 	transferred map[string]string
+	xferOwner map[string]string
+	borrow   map[string][2]string
 	hookPtr  *Ptr
 	assumedClauses map[string]bool
 }
@@ -83,6 +85,7 @@ func (x *Exec) regionOf(s SliceV) SliceV {
 	if s.Region == "" {
 		if r, ok := x.transferred[s.Base]; ok {
 			s.Region = r
+			s.Owner = x.xferOwner[s.Base]
 		}
 	}
 	return s
@@ -311,6 +314,11 @@ func (x *Exec) loadAt(st *State, t types.Type, key, base string, idx []string) V
 		}
 		if x.P.specs.Owned[key] {
 			sv.Region = key
+			if len(idx) == 0 {
+				sv.Owner = base
+			}
+		} else if b, ok := x.borrow[key+"|"+base+"|"+strings.Join(idx, ",")]; ok {
+			sv.Region, sv.Owner = b[0], b[1]
 		}
 		x.assumeSliceWf(sv, st)
 		return sv
@@ -375,7 +383,18 @@ func (x *Exec) storeAt(st *State, t types.Type, key, base string, idx []string, 
 		if x.P.specs.Owned[key] {
 			destRegion = key
 		}
-		if s.Region != destRegion && s.Base != "0" && !x.havocStore {
+		destOwner := ""
+		if destRegion != "" && len(idx) == 0 {
+			destOwner = base
+		}
+		if s.Region == destRegion && s.Region != "" && s.Owner != destOwner && s.Base != "0" && !x.havocStore {
+			x.fail("array owned by one %s is stored into another: outside the modelled subset", key)
+		}
+		if s.Region != "" && destRegion == "" && strings.HasPrefix(base, "new!") && !x.havocStore {
+			// a view of an owned array kept in a local object of this function (e.g.
+			// a decoder over a buffer): remember where it came from
+			x.borrow[key+"|"+base+"|"+strings.Join(idx, ",")] = [2]string{s.Region, s.Owner}
+		} else if s.Region != destRegion && s.Base != "0" && !x.havocStore {
 			if s.Region != "" {
 				x.fail("array of region %s stored into %s: arrays shared between fields are outside the modelled subset", s.Region, key)
 			}
@@ -390,13 +409,18 @@ func (x *Exec) storeAt(st *State, t types.Type, key, base string, idx []string, 
 				sl := x.leaf(src[i][0], 1, src[i][1])
 				dl := x.leaf(dst[i][0], 1, dst[i][1])
 				cur := x.heapGet(st, dl)
-				st.Heap[dl.Key] = x.em.define("H.xfer", dl.ArraySort(), "(store "+cur+" "+s.Base+" (select "+x.heapGet(st, sl)+" "+s.Base+"))")
+				wb := s.Base
+				if destOwner != "" {
+					wb = destOwner
+				}
+				st.Heap[dl.Key] = x.em.define("H.xfer", dl.ArraySort(), "(store "+cur+" "+wb+" (select "+x.heapGet(st, sl)+" "+s.Base+"))")
 				saved := x.storeNew
-				x.storeNew = s.New
-				x.recordWrite(dl.Key, s.Base, false)
+				x.storeNew = s.New && destOwner == ""
+				x.recordWrite(dl.Key, wb, false)
 				x.storeNew = saved
 			}
 			x.transferred[s.Base] = destRegion
+			x.xferOwner[s.Base] = destOwner
 		}
 		x.leafStore(st, key+"#base", base, idx, "Int", s.Base)
 		x.leafStore(st, key+"#off", base, idx, "(_ BitVec 64)", s.Off)
@@ -763,6 +787,15 @@ func (x *Exec) iteValue(c string, a, b Value) Value {
 		}
 		r.New = av.New && bv.New
 		ar, br := x.regionOf(av).Region, x.regionOf(bv).Region
+		ao, bo := x.regionOf(av).Owner, x.regionOf(bv).Owner
+		switch {
+		case av.Base == "0":
+			r.Owner = bo
+		case bv.Base == "0":
+			r.Owner = ao
+		default:
+			r.Owner = ite(c, ao, bo)
+		}
 		switch {
 		case ar == br:
 			r.Region = ar
@@ -1335,6 +1368,7 @@ func (x *Exec) loopHeader(fr *Frame, l *loopInfo, stEntry *State, ins []edgeIn, 
 				nv := fv.(SliceV)
 				nv.New = phiNew[phi]
 				nv.Region = x.regionOf(sv).Region
+				nv.Owner = x.regionOf(sv).Owner
 				fv = nv
 			}
 			if pv, ok := v.(Ptr); ok {
@@ -1414,7 +1448,7 @@ func (x *Exec) loopHeader(fr *Frame, l *loopInfo, stEntry *State, ins []edgeIn, 
 		var outside []string
 		for _, bt0 := range ws.Bases {
 			bt := bt0
-			if definedAfter(bt, mark) {
+			if definedAfter(bt, mark) && !ws.New[bt] {
 				if ex, ok := x.loopInvariant(bt, mark, stEntry, disc); ok {
 					outside = append(outside, ex)
 					continue
@@ -1473,6 +1507,7 @@ func (x *Exec) loopHeader(fr *Frame, l *loopInfo, stEntry *State, ins []edgeIn, 
 		if sv, ok := fr.vals[phi].(SliceV); ok {
 			if ev, ok := entryVals[phi].(SliceV); ok {
 				sv.Region = x.regionOf(ev).Region
+				sv.Owner = x.regionOf(ev).Owner
 				fr.vals[phi] = sv
 			}
 		}
